@@ -71,4 +71,26 @@ def pmapTraceJ (j : Json) : Except String Json := do
   return Json.mkObj [("ok", Json.bool at_.isNone), ("at", toJson (at_.getD tr.length)),
     ("out", natList (s.out.map (fun p => p.1 * m + p.2))), ("ended", Json.bool s.ended), ("alive", toJson alive)]
 
+def pmFaultRefused (f : FCfg) : FSt → List Lbl → Nat → FSt × Option Nat
+  | t, [], _ => (t, none)
+  | t, l :: ls, k => match fstep f t l with
+    | none => (t, some k)
+    | some t' => pmFaultRefused f t' ls (k + 1)
+
+/-- `{"m":"pmapfault","threads":T,"n":n,"fails":[item,…],"trace":[…]}` → replay of a recorded order of channel operations in
+which the mapped function panics on the items `fails` (repaired `next`: a dead worker that was not told to finish is a failure):
+accepted?, where refused, did `next()` fail, did it end, what had been returned -/
+def pmapFaultJ (j : Json) : Except String Json := do
+  let T ← getNat j "threads"
+  let n ← getNat j "n"
+  let fails ← getNatList j "fails"
+  let trJ ← getArr j "trace"
+  let tr ← trJ.toList.mapM parsePmLbl
+  let m := min T n
+  let c : Cfg := { m := m, nq := if m = 0 then 0 else n / m, nr := if m = 0 then 0 else n % m }
+  let f : FCfg := { c := c, fails := fun a b => fails.contains (a * m + b), propagate := true }
+  let (t, at_) := pmFaultRefused f (finit f) tr 0
+  return Json.mkObj [("ok", Json.bool at_.isNone), ("at", toJson (at_.getD tr.length)), ("failed", Json.bool t.failed),
+    ("ended", Json.bool t.s.ended), ("out", natList (t.s.out.map (fun p => p.1 * m + p.2)))]
+
 end Sedpack.Drv
